@@ -49,6 +49,8 @@ def judge_triple(ctx, case, observed_runtime, what_prefix="", extra=None):
     ok = observed_runtime
     if ok:
         return "ok"
+    if tc.capped(ctx):
+        return "deviation"
     cls = tl["cls"]
     if cls and not (cls in ctx.known and ctx.known[cls].get("status") == "known"):
         # a class that is not (yet) listed: every case is a violation; write out the first 25 of the
@@ -71,6 +73,7 @@ def selftest(ctx):
         judge = core.Ctx.judge
         known = {}
         extra = {}
+        violations = []
 
         def violation(self, *a, **k):
             fired.append("violation")
